@@ -8,3 +8,7 @@ import L21.Props.C09
 #print axioms L21.Place.c09_array
 #print axioms L21.Place.c09_array_nested
 #print axioms L21.Place.c09_mirror_involutive
+#print axioms L21.Place.c09_result_intrinsic
+#print axioms L21.Place.Placed_unique
+#print axioms L21.Place.c09_order_indep
+#print axioms L21.Place.c09_listing_indep
